@@ -331,8 +331,11 @@ pub fn run(ctx: &Ctx) -> Result<Run, String> {
 #[derive(Clone, Debug, Serialize, Deserialize, PartialEq, Eq, Hash)]
 pub struct ClientCase {
     pub start: Option<u32>,
-    /// stored PRF secrets: 0 none, 1 both
+    /// stored PRF secrets: 0 none, 1 both, 2 only the verification-gated one
     pub secrets: u8,
+    /// the user is verified (false: userVerification discouraged, presence only)
+    #[serde(default = "yes")]
+    pub verified: bool,
     /// authenticator with hmac-secret capability
     pub capable: bool,
     /// 0 no extension, 1 prf eval, 2 credProps only
@@ -340,10 +343,13 @@ pub struct ClientCase {
     pub listed: bool,
     pub memory: bool,
 }
+fn yes() -> bool {
+    true
+}
 pub fn client_cases() -> Vec<ClientCase> {
     let mut v = vec![];
     for start in STARTS {
-        for secrets in 0..2u8 {
+        for secrets in 0..3u8 {
             for capable in [false, true] {
                 for ext in 0..3u8 {
                     for listed in [false, true] {
@@ -351,7 +357,9 @@ pub fn client_cases() -> Vec<ClientCase> {
                             if memory && !listed {
                                 continue; // the in-memory store answers list-less lookups with nothing (C05)
                             }
-                            v.push(ClientCase { start, secrets, capable, ext, listed, memory });
+                            for verified in [true, false] {
+                                v.push(ClientCase { start, secrets, capable, ext, listed, memory, verified });
+                            }
                         }
                     }
                 }
@@ -365,7 +373,11 @@ pub fn eval_client(c: &ClientCase) -> Vec<Finding> {
     let case = json!({"client": c});
     let mut fs = vec![];
     let mut bad = |kind: &str, d: String| fs.push(Finding::new(format!("op=client-assert/kind={kind}"), d, case.clone()));
-    let item = seeded(&Seed { n: 1, rp: RP.into(), handle: Some(vec![1]), counter: c.start, hmac: (c.secrets == 1).then_some(true) });
+    let item = seeded(&Seed { n: 1, rp: RP.into(), handle: Some(vec![1]), counter: c.start, hmac: match c.secrets {
+        0 => None,
+        1 => Some(true),
+        _ => Some(false),
+    } });
     let log = Log::new();
     let cfg = super::common::AuthCfg { counter: true, id_len: None, hmac: if c.capable { 2 } else { 0 }, hmac_mc: false };
     let ext = match c.ext {
@@ -373,11 +385,12 @@ pub fn eval_client(c: &ClientCase) -> Vec<Finding> {
         1 => Some(webauthn::AuthenticationExtensionsClientInputs { cred_props: None, prf: Some(webauthn::AuthenticationExtensionsPrfInputs { eval: Some(webauthn::AuthenticationExtensionsPrfValues { first: vec![1, 2, 3].into(), second: None }), eval_by_credential: None }), prf_already_hashed: None }),
         _ => Some(webauthn::AuthenticationExtensionsClientInputs { cred_props: Some(true), prf: None, prf_already_hashed: None }),
     };
-    let opts = request_options(Auth { allow: c.listed.then(|| vec![cred_id(1)]), extensions: ext, ..Default::default() });
+    let opts = request_options(Auth { allow: c.listed.then(|| vec![cred_id(1)]), extensions: ext, uv: if c.verified { Default::default() } else { webauthn::UserVerificationRequirement::Discouraged }, ..Default::default() });
+    let uvm = if c.verified { ScriptedUv::consenting(log.clone()) } else { ScriptedUv::consenting(log.clone()).outcome(UvOutcome::Ok { presence: true, verification: false }) };
     let origin = url::Url::parse("https://example.com").unwrap();
     macro_rules! go {
         ($store:expr, $recs:expr) => {{
-            let mut client = passkey_client::Client::new(super::common::mk_auth(Logging { inner: $store, log: log.clone() }, ScriptedUv::consenting(log.clone()), &cfg));
+            let mut client = passkey_client::Client::new(super::common::mk_auth(Logging { inner: $store, log: log.clone() }, uvm.clone(), &cfg));
             let r = par::catch(|| block_on(client.authenticate(&origin, opts, passkey_client::DefaultClientData)));
             let recs: Vec<Rec> = $recs;
             (r, recs)
@@ -400,6 +413,9 @@ pub fn eval_client(c: &ClientCase) -> Vec<Finding> {
             if updates > 1 {
                 bad("counter-written-more-than-once", format!("one client ceremony made {updates} accepted counter write-backs (stored {:?} → {stored:?})", c.start));
             }
+            if c.start.is_none() && updates != 0 && res.is_err() {
+                bad("counterless-rewritten", format!("a credential without a counter was written back by a failed assertion ({updates} update calls)"));
+            }
             if stored != c.start && stored != next {
                 bad("advanced-by-more-than-one", format!("one client ceremony took the stored counter from {:?} to {stored:?}", c.start));
             }
@@ -408,6 +424,9 @@ pub fn eval_client(c: &ClientCase) -> Vec<Finding> {
                 let reported = ad.get(33..37).map(|b| u32::from_be_bytes([b[0], b[1], b[2], b[3]])).unwrap_or(0);
                 match c.start {
                     None => {
+                        if updates != 0 {
+                            bad("counterless-rewritten", format!("a credential without a counter was written back by an assertion ({updates} update calls)"));
+                        }
                         if reported != 0 || stored.is_some() {
                             bad("counterless-rewritten", format!("counter-less credential: reported {reported}, store now {stored:?}"));
                         }
